@@ -1005,6 +1005,10 @@ var progPool = []Prog{
 	{"string(\"item\") + \"#\" + string(n)", "struct", false, false},
 	{"string(o.name) + s + string(ls[0])", "map", false, false},
 	{"string(ls[0]) + \"x\" + ls[0]", "struct", false, false},
+	// a list used again after a built-in that has looked at all of it
+	{"[max(l), l, min(l), l]", "map", false, false},
+	{"[min(l), l[0], max(l), l[1]]", "struct", false, false},
+	{"string(l) + string(max(l)) + string(l)", "struct", false, false},
 	// two unions over one list: neither result may share storage with the list or with the other
 	{"[union(l, [9]), union(l, [8])]", "map", false, false},
 	{"union(l, [4]) == union(l, [5])", "struct", false, false},
